@@ -1035,12 +1035,16 @@ class Variable(CanBehaveLikeAVariable[T]):
         self._eval_parent_ = parent
         sources = sources or {}
         if self._id_ in sources:
+            # The truth value of a bound variable only matters where the variable itself is a condition; as an operand
+            # (of a comparison, a predicate, ...) a falsy value like 0, "" or None is a value like any other.
+            is_false = False
             if (
                 isinstance(self._parent_, LogicalBinaryOperator)
                 or self._is_the_condition_of_its_parent_
             ):
-                self._is_false_ = not bool(sources[self._id_])
-            yield OperationResult(sources, not bool(sources[self._id_]), self)
+                is_false = not bool(sources[self._id_])
+                self._is_false_ = is_false
+            yield OperationResult(sources, is_false, self)
         elif self._domain_:
             for v in self._domain_:
                 yield OperationResult(
